@@ -1055,6 +1055,17 @@ pub fn run(tier: Tier) -> i32 {
             extra: vec![],
         });
     }
+    {
+        let sp: Vec<(RefArray, usize)> = vec![
+            (RefArray::from_fn(&[9], |f, _| (f + 1) as f64), 6).0.project(&[5]),
+            RefArray::from_fn(&[5, 7], |f, _| ((f * 5) % 13) as f64).project(&[3, 4]),
+            RefArray::from_fn(&[4, 4, 4], |f, _| (f % 5) as f64).project(&[2, 3, 2]),
+        ]
+        .into_iter()
+        .zip([6usize, 3, 12])
+        .collect();
+        super::plain_streams_part(&mut rep, "C03", "three projected spectra with 1..3 axes at precision 3, 6 and 12", &sp);
+    }
     rep.assumptions = vec![
         "reference hyper_exact: exact u128 binomials for N<=120, compensated ln-factorial sums above (relative accuracy ~1e-11)".into(),
         "single coefficients are compared relatively, also in the far tails: 1e-11 for N <= 170, 1e-10 for N <= 5000, 1e-8 above (the unchanged tree is within 1e-13 / 2e-12 of the exact value); sums over many coefficients within 1e-8|r| + 1e-13 (DESIGN 2.9)".into(),
